@@ -63,6 +63,34 @@ class _Canon(ast.NodeTransformer):
             return ast.copy_location(lit(elts=node.args[0].elts, ctx=ast.Load()), node)
         return node
 
+    def visit_JoinedStr(self, node: ast.JoinedStr):
+        # f"({a}) + ({b})"  is  "({}) + ({})".format(a, b): one spelling of a text template for the rules
+        self.generic_visit(node)
+        tmpl = []
+        args = []
+        for v in node.values:
+            if isinstance(v, ast.Constant) and isinstance(v.value, str):
+                tmpl.append(v.value.replace("{", "{{").replace("}", "}}"))
+            elif isinstance(v, ast.FormattedValue):
+                conv = {115: "!s", 114: "!r", 97: "!a"}.get(v.conversion, "")
+                spec = ""
+                if v.format_spec is not None:
+                    if not (isinstance(v.format_spec, ast.JoinedStr) and all(isinstance(x, ast.Constant) for x in v.format_spec.values)):
+                        return node
+                    spec = ":" + "".join(x.value for x in v.format_spec.values)
+                if conv == "!s" and not spec:
+                    conv = ""
+                    args.append(ast.copy_location(ast.Call(func=ast.Name(id="str", ctx=ast.Load()), args=[v.value], keywords=[]), v))
+                else:
+                    args.append(v.value)
+                tmpl.append("{%s%s}" % (conv, spec))
+            else:
+                return node
+        if not args:
+            return node
+        call = ast.Call(func=ast.Attribute(value=ast.Constant(value="".join(tmpl)), attr="format", ctx=ast.Load()), args=args, keywords=[])
+        return ast.fix_missing_locations(ast.copy_location(call, node))
+
     def visit_UnaryOp(self, node: ast.UnaryOp):
         self.generic_visit(node)
         if isinstance(node.op, ast.Not) and isinstance(node.operand, ast.Compare) and len(node.operand.ops) == 1:
